@@ -66,8 +66,10 @@ package hotline
 // ---------------------------------------------------------------------------------
 // User name with info (300): user ID 2, icon ID 2, flags 2, name size 2, name
 
-//@ define wire_User(u) := cat(bytes(u.ID), bytes(u.Icon), bytes(u.Flags), be16(len(u.Name)), bytes(u.Name))
-//@ define inv_User(u) := len(u.Icon) == 2 && len(u.Flags) == 2 && len(u.Name) <= 65535
+// (icon and flags are kept as received: 2 bytes, or a 4-byte integer of which the record carries
+// the low-order half)
+//@ define wire_User(u) := cat(bytes(u.ID), bytes(u.Icon)[len(u.Icon)-2:len(u.Icon)], bytes(u.Flags)[len(u.Flags)-2:len(u.Flags)], be16(len(u.Name)), bytes(u.Name))
+//@ define inv_User(u) := (len(u.Icon) == 2 || len(u.Icon) == 4) && (len(u.Flags) == 2 || len(u.Flags) == 4) && len(u.Name) <= 65535
 
 //@ func (u *User) Read(p []byte) (n int, err error)
 //@   cursor wire_User readOffset inv_User
@@ -554,22 +556,22 @@ package hotline
 
 //@ func (cm *MemChatManager) New(cc *ClientConn) (id ChatID)
 //@   property C03
-//@   guarded_by cm.mu: chats
+//@   guarded_by cm.mu: chats, PrivateChat.ClientConn, PrivateChat.Subject
 //@ func (cm *MemChatManager) Join(id ChatID, cc *ClientConn)
 //@   property C03
-//@   guarded_by cm.mu: chats
+//@   guarded_by cm.mu: chats, PrivateChat.ClientConn, PrivateChat.Subject
 //@ func (cm *MemChatManager) Leave(id ChatID, clientID [2]byte)
 //@   property C03
-//@   guarded_by cm.mu: chats
+//@   guarded_by cm.mu: chats, PrivateChat.ClientConn, PrivateChat.Subject
 //@ func (cm *MemChatManager) Members(id ChatID) (r []*ClientConn)
 //@   property C03
-//@   guarded_by cm.mu: chats
+//@   guarded_by cm.mu: chats, PrivateChat.ClientConn, PrivateChat.Subject
 //@ func (cm *MemChatManager) GetSubject(id ChatID) (r string)
 //@   property C03
-//@   guarded_by cm.mu: chats
+//@   guarded_by cm.mu: chats, PrivateChat.ClientConn, PrivateChat.Subject
 //@ func (cm *MemChatManager) SetSubject(id ChatID, subject string)
 //@   property C03
-//@   guarded_by cm.mu: chats
+//@   guarded_by cm.mu: chats, PrivateChat.ClientConn, PrivateChat.Subject
 
 //@ func (ftm *MemFileTransferMgr) Add(ft *FileTransfer)
 //@   property C03
@@ -955,6 +957,16 @@ package hotline
 //@   requires cc != nil
 //@   loop 1 reaches send
 //@   guarded_by cc.mu: IdleTime
+
+// C13: the "no longer away" notice carries the flags the server stores at that moment (the away bit
+// already cleared), the stored name and icon -- what a later user list would show.
+//@ func (cc *ClientConn) handleTransaction(transaction Transaction)
+//@   property C13
+//@   before call hotline.NewField assert arg0[0] == 0 && arg0[1] == 112 ==> ptsto(arg1, cc.Flags) && len(arg1) == 2 && bitof(u16(bytes(cc.Flags)), 0) == 0
+//@   before call hotline.NewField assert arg0[0] == 0 && arg0[1] == 102 ==> same(arg1, cc.UserName)
+//@   before call hotline.NewField assert arg0[0] == 0 && arg0[1] == 104 ==> same(arg1, cc.Icon)
+//@   before call hotline.NewField assert arg0[0] == 0 && arg0[1] == 103 ==> ptsto(arg1, cc.ID) && len(arg1) == 2
+//@   before call (*hotline.ClientConn).SendAll assert arg1[0] == 1 && arg1[1] == 45 && bitof(u16(bytes(cc.Flags)), 0) == 0
 
 //@ func (ft *FileTransfer) ItemCount() (r int)
 //@   property C10
